@@ -78,7 +78,9 @@ def _dataclass_parameters(class_: Class) -> list[tuple[Parameter, bool]]:
     # Iterate on current attributes to find parameters.
     parameters = []
     for member in class_.members.values():
-        if member.is_attribute:
+        # Names imported in the class body are aliases: they are class attributes at most, never fields
+        # (and asking what kind of object they point at would need their target to be loaded).
+        if not member.is_alias and member.is_attribute:
             member = cast("Attribute", member)
 
             # All dataclass parameters have annotations.
